@@ -1374,3 +1374,146 @@ Lemma counter6_3_run :
   | _ => False
   end.
 Proof. vm_compute. repeat split. Qed.
+
+(* ============================================================ C06: no panic on fragment 6 *)
+Lemma fragment6_outcome ob bsem : (forall b, builtin_ok ob bsem b) -> (forall b, builtin_envs ob bsem b) ->
+  forall e mu sg rho b sg' rho' s,
+  wf6 e [] -> ref_eval6 bsem [] [] sg rho e (R6Base b) sg' rho' -> minv s -> genv_rel6 mu rho s -> store_rel mu sg s ->
+  transform_expr TRANSFORM_FUEL s (cell_of6 e) = Ok (cell_of6 e) ->
+  forall fuel, eval ob fuel (cell_of6 e) s = RNoFuel \/
+               exists s', eval ob fuel (cell_of6 e) s = ROk (Done (rcell b)) s'.
+Proof.
+  intros Hb He e mu sg rho b sg' rho' s Hwf HR MI G SR Htr fuel.
+  destruct (eval_fragment6 ob bsem Hb He e mu sg rho (R6Base b) sg' rho' s Hwf HR MI G SR Htr) as (n & m & mu' & Hev & _ & V & _).
+  cbn [vrep6] in V. destruct (eval_halt_cases ob _ s n m b Hev V fuel) as [H|H]; [left; exact H|right; eauto].
+Qed.
+Lemma fragment6_no_panic ob bsem : (forall b, builtin_ok ob bsem b) -> (forall b, builtin_envs ob bsem b) ->
+  forall e mu sg rho b sg' rho' s,
+  wf6 e [] -> ref_eval6 bsem [] [] sg rho e (R6Base b) sg' rho' -> minv s -> genv_rel6 mu rho s -> store_rel mu sg s ->
+  transform_expr TRANSFORM_FUEL s (cell_of6 e) = Ok (cell_of6 e) ->
+  forall fuel k, eval ob fuel (cell_of6 e) s <> RPanic k.
+Proof.
+  intros Hb He e mu sg rho b sg' rho' s Hwf HR MI G SR Htr fuel k E.
+  destruct (fragment6_outcome ob bsem Hb He e mu sg rho b sg' rho' s Hwf HR MI G SR Htr fuel) as [H|[s' H]]; rewrite H in E; discriminate.
+Qed.
+
+(* the empty store: a fresh session *)
+Corollary eval_fragment6_fresh ob bsem : (forall b, builtin_ok ob bsem b) -> (forall b, builtin_envs ob bsem b) ->
+  forall e rho r sg' rho' s,
+  wf6 e [] -> ref_eval6 bsem [] [] [] rho e r sg' rho' -> minv s -> genv_rel6 [] rho s ->
+  transform_expr TRANSFORM_FUEL s (cell_of6 e) = Ok (cell_of6 e) ->
+  exists n m mu', (forall fuel, (n <= fuel)%nat -> eval ob fuel (cell_of6 e) s = halt_result m) /\
+    vrep6 mu' m (acc m) r /\ genv_rel6 mu' rho' m /\ store_rel mu' sg' m /\ minv m /\ cext s m /\
+    sp m = sp s /\ bp m = bp s /\ ep m = ep s /\ out_log m = out_log s.
+Proof.
+  intros Hb He e rho r sg' rho' s Hwf HR MI G Htr.
+  destruct (eval_fragment6 ob bsem Hb He e [] [] rho r sg' rho' s Hwf HR MI G (store_rel_nil s) Htr)
+    as (n & m & mu' & Hev & _ & H). exists n, m, mu'. split; [exact Hev|exact H].
+Qed.
+
+(* ============================================================ the statements, spelled out *)
+Theorem fragment6_static : forall e sc, wf6 e sc ->
+  forall f l tail s, (cell_size (cell_of6 e) < f)%nat -> hdr6 l sc s -> minv s ->
+  exists l' s' code, compile_expression f l tail (cell_of6 e) s = ROk l' s' /\
+    fwd l' = fwd l ++ code /\ same_hdr l l' /\ minv s' /\ cext s s' /\ same_regs s s' /\
+    envs (st s') = envs (st s).
+Proof. exact static6. Qed.
+
+Theorem fragment6_correct :
+  forall (ob : N -> M vcell) (bsem : N -> list rval -> option rval),
+  (forall b, builtin_ok ob bsem b) -> (forall b, builtin_envs ob bsem b) ->
+  forall sc lv sg rho e r sg' rho', ref_eval6 bsem sc lv sg rho e r sg' rho' ->
+  forall f l tail s l' s' code, wf6 e sc -> (cell_size (cell_of6 e) < f)%nat -> hdr6 l sc s -> minv s ->
+    compile_expression f l tail (cell_of6 e) s = ROk l' s' -> fwd l' = fwd l ++ code ->
+    forall m mu lp bc,
+      cext s' m -> minv m -> code_in m lp bc -> seg bc (len (fwd l)) code -> ip m = (lp, len (fwd l)) ->
+      genv_rel6 mu rho m -> lrel6 mu lv m -> store_rel mu sg m -> (tail = true -> tframe m) ->
+      ok_n6 ob mu sg' m lp (len (fwd l) + len code) r rho' \/ (tail = true /\ ok_t6 ob mu sg' m r rho').
+Proof. exact compile_correct6. Qed.
+
+Theorem ok_n6_unfold : forall ob mu sg' m lp q r rho', ok_n6 ob mu sg' m lp q r rho' <->
+  exists n m' mu', RunProofs.steps ob n m = Some m' /\ prefix6 mu mu' /\ frame6 m m' /\ minv m' /\ ip m' = (lp, q) /\
+    vrep6 mu' m' (acc m') r /\ genv_rel6 mu' rho' m' /\ store_rel mu' sg' m'.
+Proof. intros; reflexivity. Qed.
+Theorem ok_t6_unfold : forall ob mu sg' m r rho', ok_t6 ob mu sg' m r rho' <->
+  exists n m' mu' k e i b, RunProofs.steps ob n m = Some m' /\ prefix6 mu mu' /\ frame_at m k e i b /\ wext m m' /\ minv m' /\
+    vrep6 mu' m' (acc m') r /\ genv_rel6 mu' rho' m' /\ store_rel mu' sg' m' /\
+    sp m' = bp m - k /\ ep m' = e /\ ip m' = i /\ bp m' = b /\ out_log m' = out_log m /\
+    (forall j, j <= bp m - k -> sget m' j = sget m j).
+Proof. intros; reflexivity. Qed.
+Theorem prefix6_unfold : forall mu mu', prefix6 mu mu' <-> exists more, mu' = mu ++ more.
+Proof. intros; reflexivity. Qed.
+Theorem wenvs_unfold : forall m m', wenvs m m' <->
+  forall e sl, e < next_id (st m) -> tget (envs (st m)) e = Some sl ->
+    exists sl', tget (envs (st m')) e = Some sl' /\ len sl' = len sl /\
+      (forall k a j, list_get sl k = Some (VLexPtr a j) -> list_get sl' k = Some (VLexPtr a j)) /\
+      (forall k w, list_get sl k = Some w -> (forall a j, w <> VLexPtr a j) ->
+         exists w', list_get sl' k = Some w' /\ (forall a j, w' <> VLexPtr a j)).
+Proof. intros; reflexivity. Qed.
+Theorem wext_unfold : forall m m', wext m m' <-> cext m m' /\ wenvs m m'.
+Proof. intros m m'. split; [intros [X E]; auto|intros [X E]; split; assumption]. Qed.
+Theorem frame6_unfold : forall m m', frame6 m m' <-> frame m m' /\ wenvs m m'.
+Proof. intros m m'. split; [intros [X E]; auto|intros [X E]; split; assumption]. Qed.
+
+(* the representation of a closure value: the captured slots of its closure environment are the
+   pointers the location map gives to the captured locations *)
+Theorem vrep6_closure_unfold : forall mu m v ps cs bodies clocs, vrep6 mu m v (R6Clo ps cs bodies clocs) <->
+  exists cp lamp cep ceid cslots, v = VPtr cp /\
+    allocated (hp m) cp /\ cell_at (hp m) cp = VClosure lamp cep /\
+    allocated (hp m) cep /\ cell_at (hp m) cep = VLexEnv ceid /\ ceid < next_id (st m) /\
+    tget (envs (st m)) ceid = Some cslots /\ len cslots = len ps + len cs /\
+    length clocs = length cs /\ closure_code6 m lamp ps cs bodies /\
+    all_idx6 (fun i l => exists a j, nth_error mu l = Some (a, j) /\ list_get cslots i = Some (VLexPtr a j))
+             clocs (len ps).
+Proof. intros; reflexivity. Qed.
+Theorem vrep6_base_unfold : forall mu m v b, vrep6 mu m v (R6Base b) <-> vrep v b (hp m) (st m).
+Proof. intros; reflexivity. Qed.
+Theorem store_rel_unfold : forall mu sg m, store_rel mu sg m <->
+  length mu = length sg /\
+  (forall l a j r, nth_error mu l = Some (a, j) -> nth_error sg l = Some r ->
+     exists eid sl w, allocated (hp m) a /\ cell_at (hp m) a = VLexEnv eid /\ eid < next_id (st m) /\
+       tget (envs (st m)) eid = Some sl /\ list_get sl j = Some w /\ (forall a' j', w <> VLexPtr a' j') /\ vrep6 mu m w r) /\
+  (forall l1 l2 a1 a2 j eid, nth_error mu l1 = Some (a1, j) -> nth_error mu l2 = Some (a2, j) ->
+     cell_at (hp m) a1 = VLexEnv eid -> cell_at (hp m) a2 = VLexEnv eid -> l1 = l2).
+Proof. intros; reflexivity. Qed.
+Theorem lrel6_unfold : forall mu lv m, lrel6 mu lv m <->
+  forall i l, nth_error lv (N.to_nat i) = Some l ->
+  exists eid slots v a j, allocated (hp m) (ep m) /\ cell_at (hp m) (ep m) = VLexEnv eid /\
+    eid < next_id (st m) /\ tget (envs (st m)) eid = Some slots /\ list_get slots i = Some v /\
+    nth_error mu l = Some (a, j) /\
+    (((forall a' j', v <> VLexPtr a' j') /\ a = ep m /\ j = i) \/ v = VLexPtr a j).
+Proof. intros; reflexivity. Qed.
+Theorem genv_rel6_unfold : forall mu rho m, genv_rel6 mu rho m <->
+  forall x r, rho x = Some r -> exists a k v,
+    allocated (hp m) a /\ cell_at (hp m) a = VSym x /\ assoc_find (g_bind m) a = Some k /\
+    list_get (g_slots m) k = Some v /\ vrep6 mu m v r.
+Proof. intros; reflexivity. Qed.
+Theorem closure_code_unfold6 : forall m lamp ps cs bodies, closure_code6 m lamp ps cs bodies <->
+  exists lam caps cb f lam2 s0 lam3 s0',
+    lam_in m lamp lam /\ l_envmap lam = ScopeProofs.enum_args (l_args lam) 0 ++ caps /\
+    Forall2 (pname m) (l_args lam) ps /\
+    Forall (fun e => exists k, snd e = BIofEnvironment k) caps /\ length caps = length cs /\
+    l_bc lam = [VOp OEnter] ++ cb ++ [VOp ORet] /\
+    bodies <> [] /\ (cell_size (cells_of6 bodies) < f)%nat /\ Forall (fun b => wf6 b (ps ++ cs)) bodies /\
+    hdr6 lam2 (ps ++ cs) s0 /\ minv s0 /\
+    compile_bodies6 f lam2 (map cell_of6 bodies) s0 = ROk lam3 s0' /\
+    fwd lam2 = [VOp OEnter] /\ fwd lam3 = fwd lam2 ++ cb /\ cext s0' m.
+Proof. intros; reflexivity. Qed.
+Theorem compile_bodies_is_body_loop6 : forall f bodies lam s,
+  body_loop6 (compile_expression f) (fold_right CPair CNil bodies) lam s = compile_bodies6 f lam bodies s.
+Proof. exact compile_bodies_eq6. Qed.
+(* the header predicate is the one of fragments 3 and 4 *)
+Theorem hdr6_is_hdr3 : forall l sc s, hdr6 l sc s <-> Closures3.hdr3 l sc s.
+Proof. intros; reflexivity. Qed.
+
+Print Assumptions fragment6_static.
+Print Assumptions fragment6_correct.
+Print Assumptions eval_fragment6_done.
+Print Assumptions done_state_ok6.
+Print Assumptions exa6_hypotheses.
+Print Assumptions exa6_run.
+Print Assumptions counter6_hypotheses.
+Print Assumptions counter6_run.
+Print Assumptions counter6_1_ref.
+Print Assumptions counter6_3_ref.
+Print Assumptions fragment6_no_panic.
